@@ -40,6 +40,43 @@ const char* UNKNOWN_KEYS_FILE =
     "9f19000a1b0000000000000005ffff1b000000000000000382b900040100021b00000000000000350700001800bf0218073a00000000780241531b7f"
     "ffffffffffffff7a00000000ffff";
 
+// An exporter whose rotation to an invalid descriptor failed must not touch its old descriptor number afterwards: the
+// number is free for re-use by any other output of the process (this thread's or another's).  Each round opens an output,
+// lets a rotation fail, opens an independent second output (which normally receives the same number), drops the exporter
+// and then checks the second output: still open, with exactly the bytes its owner wrote.
+std::string stale_descriptor(CDNS::FilePreamble& fp, int id, Rng& rng, Rng& yrng, bool yields) {
+    std::string out;
+    int bad = 0;
+    for (int round = 0; round < 6; round++) {
+        int fd0 = memfd_create("thr-flaky", 0);
+        int keep0 = dup(fd0);
+        int fd1 = -1, keep1 = -1;
+        std::string mark = "MARK" + std::to_string(id) + "." + std::to_string(round);
+        {
+            CDNS::CdnsExporter exp(fp, fd0, CDNS::CborOutputCompression::NO_COMPRESSION);
+            CDNS::GenericQueryResponse g;
+            g.ts = CDNS::Timestamp(1600000000 + id, rng.next() % 1000000);
+            g.client_port = static_cast<uint16_t>(round);
+            exp.buffer_qr(g);
+            exp.write_block();
+            bool threw = false;
+            try { exp.rotate_output(-1, false); } catch (std::exception&) { threw = true; }
+            out += threw ? "t" : "n";
+            if (yields && (yrng.next() & 1) == 0) sched_yield();
+            fd1 = memfd_create("thr-steady", 0);          // an independent output, opened while the exporter still exists
+            keep1 = dup(fd1);
+            if (write(fd1, mark.data(), mark.size()) != static_cast<ssize_t>(mark.size())) bad++;
+            if (yields && (yrng.next() & 1) == 0) sched_yield();
+        }
+        if (write(fd1, "!", 1) != 1) bad++;              // still open for its owner
+        std::string got = slurp(keep1);
+        if (got != mark + "!") bad++;
+        out += vh::digest(slurp(keep0)).substr(0, 4);
+        close(fd1); close(keep1); close(keep0);
+    }
+    return "stale:" + std::string(bad ? "BAD" : "ok") + ":" + out;
+}
+
 std::string workload(CDNS::FilePreamble& shared_fp, int id, int nrec, uint64_t seed, bool yields) {
     Rng rng{seed * 1000003ULL + id * 7919ULL + 1};
     Rng yrng{seed * 31ULL + id + 5};       // scheduling noise only: never influences the data
@@ -91,6 +128,7 @@ std::string workload(CDNS::FilePreamble& shared_fp, int id, int nrec, uint64_t s
     std::string file = slurp(keep);
     close(keep);
     std::string res = vh::digest(file) + "/" + vh::digest(acc);
+    res += "/" + stale_descriptor(fp, id, rng, yrng, yields);
     if (comp == 0) {        // read back (uncompressed outputs)
         std::istringstream is(file);
         CDNS::CdnsReader reader(is);
